@@ -46,6 +46,7 @@ func runC08(r *an.Run) {
 	physicalLines(r, "R11-physical-line-numbers")
 	compiledInterfacesNeverNil(r, "R12-compiled-matchers-are-never-nil")
 	emptiedGroupsAreDropped(r, "R13-emptied-comment-groups-are-dropped")
+	recursiveComparisonsMemoised(r, "R14-recursive-comparisons-are-made-once")
 }
 
 func tokenEOF(r *an.Run) int64 {
